@@ -6,9 +6,10 @@ history prefix and enough fuel, the VM model (`VM.runText`: model of LoadExpress
 on the model of the generator) and the reference evaluator (`Ref.runProgram`) report the same
 outcome class, printed value and trace.
 
-What is proved here (all unbounded in the size and nesting of the program, about the very
-functions `Model/Gen.lean`'s `compile` calls to lay out code — the generator has no other
-jump arithmetic):
+What is proved here (all unbounded in the size and nesting of the program).
+
+Layout half — about the very functions `Model/Gen.lean`'s `compile` calls to lay out code
+(the generator has no other jump arithmetic):
 
 * `gen_begin_pops_between`      — `GenerateBegin` puts exactly one `pop` between statements;
 * `gen_cond_targets`            — in the code of a `cond` with any number of arms, the
@@ -21,11 +22,26 @@ jump arithmetic):
                                   to the test, the exit branch, the back jump, and the
                                   `break`/`continue` offsets stored in the loop record.
 
-`compile_correct_partial` (below) says what is missing for the semantic statement.
+Execution half (lemmas in `Proofs/Sim*.lean`) — about `VM.runLoop`/`VM.exec`/`VM.run`/`VM.runText`
+and `Ref.eval`/`Ref.runProgram` themselves:
+
+* `vm_runLoop_step`, `vm_simple_instructions` — one turn of the `Run` loop; `push pop dup jump
+                                  goto branch` as state transformers (all cases);
+* `segment_lemma_F0c`           — the code of an F0c expression, embedded at any offset of any
+                                  function, pushes exactly the value of the reference evaluator
+                                  within `code.length` instructions and changes nothing else;
+* `F0c_total`                   — `compile` and `Ref.eval` are total on F0c (explicit bounds);
+* `compile_correct_F0c`         — for F0c programs, with explicit fuel on both sides,
+                                  `obsOfVM (runText …) = obsOfRef (runProgram …)` and it is a value;
+* `compile_correct_on_F0c`      — `CompileCorrect` restricted to F0c, in its own vocabulary.
+
+`compile_correct_partial` (below) says what is proved of the semantic statement and names
+the unproved remainder (`CompileCorrectOutsideF0c`).
 -/
 import ZygoVerif.Model.Gen
 import ZygoVerif.Model.VM
 import ZygoVerif.Spec.RefEval
+import ZygoVerif.Proofs.SimF0cTop
 namespace ZygoVerif.C02
 open ZygoVerif.Core ZygoVerif.VM
 
@@ -223,28 +239,205 @@ theorem gen_for_layout (l : Nat) (init test incr body : List Instr) :
 example : (asmFor 0 [Instr.popUntilMark 0] [Instr.push (.bool false)] [Instr.popUntilMark 0] [Instr.popUntilMark 0]).2
     = (15, 6) := by decide
 
-/-! ## What is missing for `CompileCorrect` -/
+/-! ## The execution half (Proofs/Sim*.lean)
 
-/-- `compile_correct_partial`: the layout half of the simulation argument for the fragment
-F0/F1 (literals, symbols, builtin calls, `begin def set cond and or let letseq newScope for`):
-every jump the generator emits for these forms lands on the boundary the reference
-semantics prescribes (next arm / behind the form / loop test, increment and exit), and
-`begin` pops exactly between statements.
+Stage A — machine lemmas: one turn of the `Run` loop, and each simple instruction as a state
+transformer. Stage B — the segment lemma and the top-level statement for the pure control
+fragment `F0c` (literals, non-empty `begin`, `cond` with any number of arms, `and`/`or` of any
+arity, nested arbitrarily), for programs of every size and nesting. -/
 
-MISSING (not proved; held by the 3-way `eval` correspondence on every run):
-* the execution half — a segment lemma "the code of a sub-expression embedded at offset k
-  runs as when run alone" over `VM.run`, and from it `CompileCorrect` for F0 (values of
-  `cond/and/or/begin/let`), F1 (`for`, `break`, `continue`), F2 (`fn`/`defn`, calls, varargs,
-  recursion: needs the scope/closure simulation relation shared with C03) and F3 (self tail
-  calls, `map`/`apply`, lazy parameters);
-* the link between `compile`'s monadic plumbing and the `asm*` functions is by definition
-  (`compile` calls them), not a separate theorem. -/
+open ZygoVerif.Sim
+
+/-- One turn of the `Run` loop: with the program counter on instruction `i` of a compiled
+function (`code = pre ++ i :: post`, `pc = pre.length`), if `i` executes without fault into
+`s'`, the loop continues from `s'` with one unit of fuel less — whatever control state the
+enclosing `Run` captured. -/
+theorem vm_runLoop_step (s s' : St) (pre : List Instr) (i : Instr) (post : List Instr)
+    (huser : (fnOf s s.curfunc).user = false) (hcode : (fnOf s s.curfunc).code = pre ++ i :: post)
+    (hpc : s.pc = (pre.length : Int)) (fuel : Nat) (st : CtlState)
+    (hx : (exec fuel i).run s = (.ok (), s')) :
+    (runLoop (fuel + 1) st).run s = (runLoop fuel st).run s' :=
+  runLoop_step ⟨huser, hcode, hpc⟩ fuel st hx
+
+example : ∃ s s' pre i post fuel, (fnOf s s.curfunc).user = false ∧ (fnOf s s.curfunc).code = pre ++ i :: post
+    ∧ s.pc = (pre.length : Int) ∧ (exec fuel i).run s = (.ok (), s') :=
+  ⟨{ initSt with fns := [{ code := [.push .nil] }] }, _, [], .push .nil, [], 1, rfl, rfl, rfl, exec_push 0 .nil _⟩
+
+/-- The simple instructions as state transformers (all cases of `Execute`, any fuel `≥ 1`):
+`push`, `pop` (underflow ignored, nil element = host panic), `dup`, `jump`, `goto`
+(target outside `[0, size]` = error), `branch` (pops; taken iff direction = truthiness). -/
+theorem vm_simple_instructions (f : Nat) (s : St) :
+    (∀ v, (exec (f + 1) (.push v)).run s = (.ok (), { s with data := some v :: s.data, pc := s.pc + 1 }))
+    ∧ ((exec (f + 1) .pop).run s = match s.data with
+        | [] => (.ok (), { s with pc := s.pc + 1 })
+        | none :: _ => (.error .panic, s)
+        | some _ :: rest => (.ok (), { s with data := rest, pc := s.pc + 1 }))
+    ∧ ((exec (f + 1) .dup).run s = match s.data with
+        | [] => (.error .err, s)
+        | none :: _ => (.error .panic, s)
+        | some v :: _ => (.ok (), { s with data := some v :: s.data, pc := s.pc + 1 }))
+    ∧ (∀ off, (exec (f + 1) (.jump off)).run s =
+        if s.pc + off < 0 ∨ s.pc + off > curSize s then (.error .err, s) else (.ok (), { s with pc := s.pc + off }))
+    ∧ (∀ loc : Nat, (exec (f + 1) (.goto loc)).run s =
+        if (loc : Int) < 0 ∨ (loc : Int) > curSize s then (.error .err, s) else (.ok (), { s with pc := loc }))
+    ∧ (∀ dir off, (exec (f + 1) (.branch dir off)).run s = match s.data with
+        | [] => (.error .err, s)
+        | none :: _ => (.error .panic, s)
+        | some v :: rest =>
+          if dir = truthy v then
+            (if s.pc + off < 0 ∨ s.pc + off > curSize s then (.error .err, { s with data := rest })
+             else (.ok (), { s with data := rest, pc := s.pc + off }))
+          else (.ok (), { s with data := rest, pc := s.pc + 1 })) :=
+  ⟨fun v => exec_push f v s, exec_pop f s, exec_dup f s, fun off => exec_jump f off s,
+   fun loc => exec_goto f loc s, fun dir off => exec_branch f dir off s⟩
+
+/-- **Segment lemma for F0c** (statement spelled out; `Sim.segment_F0c` is the same with the
+vocabulary `Seg`/`Reach`/`Pushes`). For every F0c expression `e`, whatever generator context and
+state it is compiled in, and whatever value `v` the reference evaluator returns for it (any
+fuel, environment and state): the reference state is unchanged, and in every VM state whose
+current function is compiled code `pre ++ code ++ post` with `pc = pre.length`, the run loop
+— inside any `Run`, with any remaining fuel `≥ 1` — executes at most `code.length`
+instructions and arrives at `pc = pre.length + code.length` with exactly one more value, `v`,
+on the data stack and everything else unchanged. -/
+theorem segment_lemma_F0c (e : Expr) (he : F0c e = true) (isFn : Nat → Bool) (c : Ctx) (gs gs' : GS)
+    (code : List Instr) (t : Bool) (hc : (compile isFn c e).run gs = .ok ((code, t), gs'))
+    (n env : Nat) (rs rs' : Ref.St) (v : Val) (hr : Ref.eval n e env rs = .ok v rs') :
+    rs' = rs ∧
+    ∀ (s : St) (pre post : List Instr), (fnOf s s.curfunc).user = false →
+      (fnOf s s.curfunc).code = pre ++ code ++ post → s.pc = (pre.length : Int) →
+      ∃ k, k ≤ code.length ∧ ∀ fuel, 1 ≤ fuel → ∀ st,
+        (runLoop (fuel + k) st).run s
+          = (runLoop fuel st).run { s with pc := s.pc + code.length, data := some v :: s.data } := by
+  obtain ⟨h1, h2⟩ := segment_F0c e he isFn c gs code t gs' hc n env rs v rs' hr
+  exact ⟨h1, fun s pre post hu hcd hpc => h2 s pre post ⟨hu, hcd, hpc⟩⟩
+
+/-- `compile` is total on F0c and does not touch the generator state; the code has at most
+`3 * esize e` instructions; the reference evaluator is total on F0c with fuel `esize e`. -/
+theorem F0c_total (e : Expr) (he : F0c e = true) :
+    (∀ isFn c gs, ∃ code, (compile isFn c e).run gs = .ok ((code, c.tail), gs) ∧ code.length ≤ 3 * esize e)
+    ∧ (∀ n, esize e ≤ n → ∀ env rs, ∃ v, Ref.eval n e env rs = .ok v rs) := by
+  refine ⟨fun isFn c gs => ?_, refEval_total e he⟩
+  obtain ⟨code, h⟩ := compile_total e he isFn c gs
+  exact ⟨code, h, compile_length_F0c e he isFn c gs _ h⟩
+
+/-- The property restricted to a class `D` of programs (same shape as `CompileCorrect`). -/
+def CompileCorrectOn (D : List Expr → Prop) : Prop :=
+  ∀ (p : List Expr), D p → Ref.wfList {} p = true →
+    ∀ fuel o, obsOfRef (Ref.runProgram fuel p Ref.initSt).1 = some o →
+      ∃ fuel', obsOfVM (VM.runText fuel' p VM.initSt).1 = some o
+
+theorem compileCorrect_iff_on_all : CompileCorrect ↔ CompileCorrectOn (fun _ => True) :=
+  ⟨fun h p _ => h p, fun h p => h p trivial⟩
+
+/-- **F0c programs, explicit fuel.** For every program text whose top-level forms are in F0c
+(any number of forms, any nesting): with reference fuel `≥ esizeList p` and VM fuel
+`≥ 3 * esizeList p + 3`, both sides terminate and the VM model reports exactly what the
+reference evaluator reports — class `ok`, the same printed value, the empty trace. -/
+theorem compile_correct_F0c (p : List Expr) (hp : F0cList p = true)
+    (fuel fuel' : Nat) (hf : esizeList p ≤ fuel) (hf' : 3 * esizeList p + 3 ≤ fuel') :
+    obsOfVM (VM.runText fuel' p VM.initSt).1 = obsOfRef (Ref.runProgram fuel p Ref.initSt).1
+    ∧ ∃ v, obsOfRef (Ref.runProgram fuel p Ref.initSt).1 = some (.ok v []) := by
+  cases p with
+  | nil =>
+    obtain ⟨m, rfl⟩ : ∃ m, fuel = m + 1 := ⟨fuel - 1, by rw [esizeList] at hf; omega⟩
+    rw [runText_nil initSt atRest_initSt rfl fuel' (by omega), refProgram_nil]
+    exact ⟨rfl, _, rfl⟩
+  | cons e es =>
+    obtain ⟨v, hv⟩ := refBegin_total (e :: es) (by simp) hp fuel hf 0 { Ref.initSt with trace := [] }
+    obtain ⟨code, hrun⟩ := runText_F0c initSt (e :: es) (by simp) hp atRest_initSt fuel 0 _ v _ hv fuel' hf'
+    rw [hrun, refProgram_ok fuel (e :: es) Ref.initSt v hv]
+    exact ⟨rfl, _, rfl⟩
+
+/-- **`CompileCorrect` for the fragment F0c**, in the vocabulary of the full statement:
+whenever the reference evaluator (with whatever fuel) reports an outcome for an F0c
+program, the VM model reports the same outcome. -/
+theorem compile_correct_on_F0c : CompileCorrectOn (fun p => F0cList p = true) := by
+  intro p hp _ fuel o ho
+  refine ⟨3 * esizeList p + 3, ?_⟩
+  cases p with
+  | nil =>
+    rw [runText_nil initSt atRest_initSt rfl _ (by omega)]
+    cases fuel with
+    | zero => simp [Ref.runProgram, Ref.evalBegin, obsOfRef] at ho
+    | succ m =>
+      rw [refProgram_nil] at ho
+      exact ho
+  | cons e es =>
+    rcases refBegin_noFail (e :: es) (by simp) hp fuel 0 { Ref.initSt with trace := [] } with ⟨v, hv⟩ | hv
+    · obtain ⟨code, hrun⟩ := runText_F0c initSt (e :: es) (by simp) hp atRest_initSt fuel 0 _ v _ hv _ (Nat.le_refl _)
+      rw [refProgram_ok fuel (e :: es) Ref.initSt v hv] at ho
+      rw [hrun]
+      exact ho
+    · have href : Ref.runProgram fuel (e :: es) Ref.initSt = (.timeout, Ref.initSt) := by
+        unfold Ref.runProgram
+        simp only [hv]
+      rw [href] at ho
+      cases ho
+
+/-! ### Non-vacuity: a concrete nested F0c program -/
+
+/-- `(begin 1 "x") (cond (and 1 (or false 0)) (begin 1 2) (and) (cond () 5 (or () 7 8)) 9)` -/
+def demoF0c : List Expr :=
+  [.begin_ [.int 1, .str "x"],
+   .cond [(.and_ [.int 1, .or_ [.bool false, .int 0]], .begin_ [.int 1, .int 2]),
+          (.and_ [], .cond [(.nilLit, .int 5)] (.or_ [.nilLit, .int 7, .int 8]))] (.int 9)]
+
+example : F0cList demoF0c = true := by decide
+example : esizeList demoF0c = 46 := by decide
+
+/-- the reference evaluator computes 7 for it (first arm's test is falsy: `(or false 0)` is 0;
+second arm's test `(and)` is true; inner `cond` falls to its default; `(or () 7 8)` is 7) -/
+theorem demoF0c_ref (rs : Ref.St) : Ref.evalBegin 12 demoF0c 0 rs = .ok (intOfLit 7) rs := by
+  have tr7 : truthy (intOfLit 7) = true := by decide
+  have tr1 : truthy (intOfLit 1) = true := by decide
+  have tr0 : truthy (intOfLit 0) = false := by decide
+  have trn : truthy .nil = false := rfl
+  have trb : ∀ b : Bool, truthy (.bool b) = b := fun _ => rfl
+  simp only [demoF0c, Ref.evalBegin, Ref.eval, Ref.evalCond, Ref.evalAndOr, tr7, tr1, trn, trb]
+  simp [tr0]
+
+/-- … and so does the VM model, by `runText_F0c` (hypotheses of the segment lemma and of the
+top-level theorem are satisfiable; the harness run of the same text prints `7`). -/
+example : ∃ code, VM.runText 141 demoF0c VM.initSt
+    = (.done "ok" (pr VM.initSt.heap (intOfLit 7)) [] (depths VM.initSt), afterText VM.initSt code, true) :=
+  runText_F0c VM.initSt demoF0c (by decide) (by decide) atRest_initSt 12 0 Ref.initSt _ _ (demoF0c_ref _) 141 (by decide)
+
+example : obsOfVM (VM.runText 141 demoF0c VM.initSt).1 = obsOfRef (Ref.runProgram 46 demoF0c Ref.initSt).1 :=
+  (compile_correct_F0c demoF0c (by decide) 46 141 (by decide) (by decide)).1
+
+/-! ## What is proved of `CompileCorrect`, and what is missing -/
+
+/-- **The part of `CompileCorrect` that is NOT proved**: programs with at least one
+top-level form outside F0c — i.e. using symbols, `def`/`set`, `let`/`letseq`/`newScope`, calls
+(builtin or user), arrays, `for`/`break`/`continue`, `fn`/`defn`, or an empty `begin`. Held by
+the 3-way `eval` correspondence on every run, not by a theorem. -/
+def CompileCorrectOutsideF0c : Prop := CompileCorrectOn (fun p => F0cList p = false)
+
+/-- `compile_correct_partial`: what is proved of the semantic statement.
+
+1. `CompileCorrect` restricted to F0c programs (execution half included: generator model +
+   VM model vs reference evaluator, all sizes and nestings) — `compile_correct_on_F0c`;
+2. the full `CompileCorrect` follows from its restriction to the programs outside F0c
+   (`CompileCorrectOutsideF0c`, the precise unproved remainder);
+3. the layout half for the forms outside F0c that have jump arithmetic (`for` loops:
+   `gen_for_layout`), and for `begin`/`cond`/`and`/`or` as before.
+
+MISSING (held by the `eval` correspondence only): `CompileCorrectOutsideF0c` — Stage C
+(symbols, `def`/`set` in the global scope), Stage D (`let`/`letseq`/`newScope`, builtin calls
+through `callExpr`: re-entrant `Run`), F1 (`for`/`break`/`continue`), F2 (closures, user calls,
+varargs, recursion), F3 (self tail calls, `map`/`apply`, lazy parameters). -/
 theorem compile_correct_partial :
-    (∀ cs : List (List Instr), (∀ c ∈ cs, c ≠ []) → asmBegin cs = (cs.intersperse [Instr.pop]).flatten)
+    CompileCorrectOn (fun p => F0cList p = true)
+    ∧ (CompileCorrectOutsideF0c → CompileCorrect)
+    ∧ (∀ cs : List (List Instr), (∀ c ∈ cs, c ≠ []) → asmBegin cs = (cs.intersperse [Instr.pop]).flatten)
     ∧ (∀ (arms : List (List Instr × List Instr)) (dflt : List Instr) (i : Nat), i < arms.length →
         ∃ pre, asmCond arms dflt = pre ++ asmCond (arms.drop i) dflt)
     ∧ (∀ (isOr : Bool) (cs : List (List Instr)) (i : Nat), i < cs.length →
-        ∃ pre, asmSC isOr cs = pre ++ asmSC isOr (cs.drop i)) :=
-  ⟨gen_begin_pops_between, fun arms dflt i _ => asmCond_suffix arms dflt i, asmSC_suffix⟩
+        ∃ pre, asmSC isOr cs = pre ++ asmSC isOr (cs.drop i)) := by
+  refine ⟨compile_correct_on_F0c, fun hout p hwf => ?_, gen_begin_pops_between,
+    fun arms dflt i _ => asmCond_suffix arms dflt i, asmSC_suffix⟩
+  cases h : F0cList p with
+  | true => exact compile_correct_on_F0c p h hwf
+  | false => exact hout p h hwf
 
 end ZygoVerif.C02
